@@ -534,21 +534,35 @@ func splitTerm(sizes []int) string {
 }
 
 var stats = map[string]int{}
+var thoroughTier bool
+var splitTurn int
+
+// fail records an oracle failure; at most three records per key are kept (vh keeps only the first
+// 200 failures of a run, so one frequent failure must not hide a different one), the rest is counted.
+var failsPerKey = map[string]int{}
+
+func fail(what, key string, c interface{}) {
+	if failsPerKey[key]++; failsPerKey[key] > 3 {
+		stats["more-failures-"+key]++
+		return
+	}
+	out.Fail(what, key, c)
+}
 
 // one sender, one kind: write (packet + stream), read back through every split
 func doKind(k int, snd, r0 *msess, rest []byte, class string, modelSplits bool) {
 	wp, ws := writeTo(snd, k, false), writeTo(snd, k, true)
 	desc := map[string]interface{}{"kind": kindName[k], "sender": snd.desc(), "rest": len(rest)}
 	if wp.panic || ws.panic {
-		out.Fail("writeDeviceInfo panicked", "write-panic-"+kindName[k], desc)
+		fail("writeDeviceInfo panicked", "write-panic-"+kindName[k], desc)
 		return
 	}
 	if wp.err != nil || ws.err != nil {
-		out.Fail("writeDeviceInfo returned an error", "write-error-"+kindName[k], desc)
+		fail("writeDeviceInfo returned an error", "write-error-"+kindName[k], desc)
 		return
 	}
 	if !bytes.Equal(wp.b, ws.b) {
-		out.Fail("writeDeviceInfo writes different bytes into a Packet and into a stream writer", "write-differs-"+kindName[k], desc)
+		fail("writeDeviceInfo writes different bytes into a Packet and into a stream writer", "write-differs-"+kindName[k], desc)
 	}
 	wf := wfKind(k, snd)
 	nontriv := snd.Jitter != r0.Jitter || snd.Sleep != r0.Sleep || k == kProxy
@@ -558,7 +572,7 @@ func doKind(k int, snd, r0 *msess, rest []byte, class string, modelSplits bool) 
 	judge := func(how string, r rres, sizes []int) {
 		d := map[string]interface{}{"kind": kindName[k], "sender": snd.desc(), "receiver_before": r0.desc(), "rest": len(rest), "reader": how, "chunk_sizes": sizes}
 		if r.panic {
-			out.Fail("readDeviceInfo panicked", "read-panic-"+kindName[k], d)
+			fail("readDeviceInfo panicked", "read-panic-"+kindName[k], d)
 			return
 		}
 		if !wf {
@@ -573,23 +587,23 @@ func doKind(k int, snd, r0 *msess, rest []byte, class string, modelSplits bool) 
 		}
 		if r.err != nil {
 			d["error"] = r.err.Error()
-			out.Fail(fmt.Sprintf("%s message of a well-formed session is rejected by readDeviceInfo (%s reader): %s", kindName[k], how, r.err.Error()),
+			fail(fmt.Sprintf("%s message of a well-formed session is rejected by readDeviceInfo (%s reader): %s", kindName[k], how, r.err.Error()),
 				"read-error-"+kindName[k]+"-"+how, d)
 			return
 		}
 		if f := diffCarried(k, snd, r0, r.after); f != "" {
 			d["field"] = f
 			d["receiver_after"] = r.after.desc()
-			out.Fail(fmt.Sprintf("%s message: receiver's %s differs from the sender's", kindName[k], f), "field-"+kindName[k]+"-"+f, d)
+			fail(fmt.Sprintf("%s message: receiver's %s differs from the sender's", kindName[k], f), "field-"+kindName[k]+"-"+f, d)
 			return
 		}
 		if e := expectProxies(k, snd); !pdEqual(e, r.pd) {
-			out.Fail(kindName[k]+" message: proxy list differs from the sender's", "proxies-"+kindName[k], d)
+			fail(kindName[k]+" message: proxy list differs from the sender's", "proxies-"+kindName[k], d)
 			return
 		}
 		if r.left != len(rest) {
 			d["left"] = r.left
-			out.Fail(kindName[k]+" message: reader consumed bytes beyond the message (or left some of it)", "consumed-"+kindName[k], d)
+			fail(kindName[k]+" message: reader consumed bytes beyond the message (or left some of it)", "consumed-"+kindName[k], d)
 		}
 	}
 	// flat (Packet)
@@ -611,9 +625,15 @@ func doKind(k int, snd, r0 *msess, rest []byte, class string, modelSplits bool) 
 	if !big {
 		sps = append(sps, sp{"2-byte", []int{2}, true}, sp{"at-132", []int{132, 1, 65, 67, 1000}, true})
 	}
-	for _, x := range sps {
+	splitTurn++
+	for i, x := range sps {
 		r := readStream(r0, k, chop(in, x.sizes))
 		judge(x.how, r, x.sizes)
+		// quick tier: the whole and the random split always go to the model, the fixed ones take turns
+		// (every split is still judged by the oracle on the implementation)
+		if !thoroughTier && i != 0 && i != 2 && (i+splitTurn)%3 != 0 {
+			x.model = false
+		}
 		if x.model && modelSplits {
 			out.Add(fmt.Sprintf("CRoundStream %d %s %s %s %s %s", k, snd.term(), r0.term(), vh.Bytes(rest), splitTerm(x.sizes), r.term()),
 				"stream-"+x.how+"-"+kindName[k]+"-"+class, nontriv, desc)
@@ -632,9 +652,16 @@ func doDamaged(k int, snd, r0 *msess) {
 	}
 	cut := func(n int) {
 		in := w.b[:n]
-		rf := readFlat(r0, k, in)
-		out.Add(fmt.Sprintf("CReadFlat %d %s %s %s", k, r0.term(), vh.Bytes(in), rf.term()), "damaged-truncated-packet-"+kindName[k], n > 0,
-			map[string]interface{}{"kind": kindName[k], "truncated_to": n, "of": len(w.b)})
+		// A Packet that was never written to (nil buffer) answers Read with (0, nil) for ever, so the
+		// io.ReadFull of ID.Read spins on an EMPTY hello/refresh/syncMigrate/migrate body: that is a
+		// malformed-input matter (C04), not a round trip; the empty body is only given to the stream reader.
+		if n > 0 || !(hasDevice(k) || k == kMigrate) {
+			rf := readFlat(r0, k, in)
+			out.Add(fmt.Sprintf("CReadFlat %d %s %s %s", k, r0.term(), vh.Bytes(in), rf.term()), "damaged-truncated-packet-"+kindName[k], n > 0,
+				map[string]interface{}{"kind": kindName[k], "truncated_to": n, "of": len(w.b)})
+		} else {
+			stats["empty-packet-body-not-read-"+kindName[k]]++
+		}
 		ch := chop(in, []int{1 + rng.Intn(5)})
 		r := readStream(r0, k, ch)
 		it := make([]string, len(ch))
@@ -647,6 +674,9 @@ func doDamaged(k int, snd, r0 *msess) {
 	step := 1
 	if len(w.b) > 120 {
 		step = 1 + len(w.b)/60
+	}
+	if !thoroughTier && len(w.b) > 30 {
+		step = 1 + len(w.b)/24
 	}
 	for n := 0; n < len(w.b); n += step {
 		cut(n)
@@ -792,7 +822,7 @@ func doOrder(srvM, cliM *msess, o order, class string) {
 	}
 	out.Add(fmt.Sprintf("CTime %s %s %s %s", srvM.term(), cliM.term(), o.term(), term), "time-"+o.kind+"-"+class, true, desc)
 	if r.panic {
-		out.Fail("MvTime exchange panicked", "time-panic-"+o.kind, desc)
+		fail("MvTime exchange panicked", "time-panic-"+o.kind, desc)
 		return
 	}
 	synced := srvM.Jitter == cliM.Jitter && srvM.Sleep == cliM.Sleep && srvM.Kill.Equal(cliM.Kill) && reflect.DeepEqual(srvM.Work, cliM.Work)
@@ -803,14 +833,15 @@ func doOrder(srvM, cliM *msess, o order, class string) {
 			return
 		}
 		desc["stage"] = r.stage
-		out.Fail("a settings order did not complete: "+r.stage, "time-incomplete-"+o.kind, desc)
+		fail("a settings order did not complete: "+r.stage, "time-incomplete-"+o.kind, desc)
 		return
 	}
 	desc["client_after"], desc["server_view_after"] = r.cli.desc(), r.srv.desc()
 	// (1) the server's view equals the client's afterwards (always, synced or not)
-	if r.srv.Jitter != r.cli.Jitter || r.srv.Sleep != r.cli.Sleep || !r.srv.Kill.Equal(r.cli.Kill) || r.srv.Kill.IsZero() != r.cli.Kill.IsZero() ||
-		!reflect.DeepEqual(r.srv.Work, r.cli.Work) {
-		out.Fail("after the echo the server's view of sleep/jitter/kill date/work hours differs from the client's", "view-"+o.kind, desc)
+	// kill date at the wire's one-second resolution with Unix 0 / the zero Time = none; an Empty() work-hours
+	// value and nil both mean "no work hours" (documented normalisations, see notes/C12.md)
+	if r.srv.Jitter != r.cli.Jitter || r.srv.Sleep != r.cli.Sleep || !killMatches(r.cli.Kill, r.srv.Kill) || !workMatches(r.cli.Work, r.srv.Work) {
+		fail("after the echo the server's view of sleep/jitter/kill date/work hours differs from the client's", "view-"+o.kind, desc)
 		return
 	}
 	// (2) the ordered values took effect; judged inside the documented domain: views in sync and
@@ -854,7 +885,7 @@ func doOrder(srvM, cliM *msess, o order, class string) {
 		if o.kind == "TaskDuration" && (o.j > 127 || o.j < -128) {
 			key = "effect-TaskDuration-jitter-outside-int8"
 		}
-		out.Fail("the ordered change did not take effect on the client exactly: "+bad, key, desc)
+		fail("the ordered change did not take effect on the client exactly: "+bad, key, desc)
 	}
 }
 
@@ -1014,6 +1045,7 @@ func main() {
 	out.ShardSize = 60
 	rng = vh.NewRand(fl.Seed)
 	thorough := fl.Tier == "thorough"
+	thoroughTier = thorough
 	mul := 1
 	if thorough {
 		mul = 12
@@ -1047,7 +1079,7 @@ func main() {
 		}
 		i := 0
 		for j := 0; j < 256; j++ {
-			if !thorough && j > 102 && j < 250 && j%16 != 0 && j != 127 && j != 128 {
+			if !thorough && j > 3 && j < 250 && j%16 != 0 && (j < 99 || j > 102) && j != 50 && j != 127 && j != 128 {
 				continue
 			}
 			s := *base
@@ -1176,7 +1208,10 @@ func main() {
 	}
 
 	// ---- random structured sessions
-	nr := 40 * mul
+	nr := 14
+	if thorough {
+		nr = 480
+	}
 	for i := 0; i < nr; i++ {
 		s := randSess(rng.Intn(8) > 0)
 		var r0 *msess
@@ -1192,8 +1227,8 @@ func main() {
 		for _, k := range allKinds {
 			doKind(k, s, r0, rest, "random", true)
 		}
-		if i%4 == 0 {
-			doDamaged(allKinds[(i/4)%6], s, r0)
+		if i%2 == 0 {
+			doDamaged(allKinds[(i/2)%6], s, r0)
 		}
 	}
 
@@ -1217,13 +1252,16 @@ func main() {
 			for _, t := range ts {
 				srv, cli := mk(true)
 				doOrder(srv, cli, order{kind: "SetDuration", t: t, j: j}, "grid")
-				if thorough || (j+t)%3 == 0 {
+				if thorough || (j+t)%3 == 0 || (t == 1000000 && j >= 100) {
 					srv, cli = mk(true)
 					doOrder(srv, cli, order{kind: "TaskDuration", t: t, j: j}, "grid")
 				}
 			}
 		}
 		for j := int64(-3); j <= 130; j++ {
+			if !thorough && j > 3 && (j < 98 || j > 103) && j < 126 && j != 50 {
+				continue
+			}
 			srv, cli := mk(true)
 			doOrder(srv, cli, order{kind: "SetDuration", t: sleeps[rng.Intn(4)], j: j}, "jitter-sweep")
 			srv, cli = mk(true)
@@ -1244,7 +1282,7 @@ func main() {
 			}
 		}
 		// the client's jitter outside 0..100 (cannot arise from the client's own assignments) and views out of sync
-		for i := 0; i < 30*mul; i++ {
+		for i := 0; i < 36*mul; i++ {
 			srv, cli := mk(i%2 == 0)
 			if i%3 == 0 {
 				cli.Jitter = uint8(101 + rng.Intn(155))
